@@ -62,25 +62,25 @@ const (
 )
 
 type env struct {
-	s       *hx.Suite
-	signer  *helpers.Signer
-	owner   *helpers.Signer // EOA with a delegation that approved every pool contract
-	owner2  *helpers.Signer // EOA with a tiny delegation and a large allowance for every pool contract
-	direct  *helpers.Signer // EOA that calls the precompiles directly (transaction `to` = precompile)
-	sink    common.Address  // receiver of share transfers
-	pool    []common.Address
-	poolIdx map[common.Address]int
-	vals    []string
-	staking common.Address
-	cross   common.Address
-	wfx     common.Address              // ERC-20 face of FX (token pair of the default denom); zero if set-up failed
-	tst     common.Address              // a native ERC-20 (owner external) registered with an eth bridge alias; zero if set-up failed
-	hookTok  []common.Address           // native ERC-20s whose transferFrom runs the code of hookAddr[k] (a generated program)
+	s        *hx.Suite
+	signer   *helpers.Signer
+	owner    *helpers.Signer // EOA with a delegation that approved every pool contract
+	owner2   *helpers.Signer // EOA with a tiny delegation and a large allowance for every pool contract
+	direct   *helpers.Signer // EOA that calls the precompiles directly (transaction `to` = precompile)
+	sink     common.Address  // receiver of share transfers
+	pool     []common.Address
+	poolIdx  map[common.Address]int
+	vals     []string
+	staking  common.Address
+	cross    common.Address
+	wfx      common.Address   // ERC-20 face of FX (token pair of the default denom); zero if set-up failed
+	tst      common.Address   // a native ERC-20 (owner external) registered with an eth bridge alias; zero if set-up failed
+	hookTok  []common.Address // native ERC-20s whose transferFrom runs the code of hookAddr[k] (a generated program)
 	hookAddr []common.Address
-	txids   map[common.Address][]uint64 // prepared outgoing pool txs per pool contract
-	reqGas  map[string]uint64
-	writer  map[string]bool
-	cnt     func(string)
+	txids    map[common.Address][]uint64 // prepared outgoing pool txs per pool contract
+	reqGas   map[string]uint64
+	writer   map[string]bool
+	cnt      func(string)
 }
 
 func poolAddr(i int) common.Address {
